@@ -127,7 +127,33 @@ class ExoticSerDes(SerDes):
         return set(d["set"]) if "set" in d else d["v"]
 
 
-SERDES = {None: None, "exotic": ExoticSerDes(), "json": JsonSerDes(), "utf8json": Utf8JsonSerDes(), "tagged": TaggedSerDes(), "ctxbound": ContextBoundSerDes()}
+class WriteOnlySerDes(SerDes):
+    """Cannot read back what it wrote (an asymmetric / misconfigured serdes)."""
+
+    def serialize(self, value, _ctx):
+        return "W:" + json.dumps(value)
+
+    def deserialize(self, data, _ctx):
+        msg = "cannot read back"
+        raise ValueError(msg)
+
+
+class OutageSerDes(SerDes):
+    """Round-trips JSON values, but reading fails from the second invocation of the execution on (an outage of the store it offloads to)."""
+
+    INV = [1]
+
+    def serialize(self, value, _ctx):
+        return json.dumps(value)
+
+    def deserialize(self, data, _ctx):
+        if OutageSerDes.INV[0] >= 2:
+            msg = "payload store unavailable"
+            raise ConnectionError(msg)
+        return json.loads(data)
+
+
+SERDES = {None: None, "exotic": ExoticSerDes(), "writeonly": WriteOnlySerDes(), "outage": OutageSerDes(), "json": JsonSerDes(), "utf8json": Utf8JsonSerDes(), "tagged": TaggedSerDes(), "ctxbound": ContextBoundSerDes()}
 
 
 _PROCESS_LOGGER = None
@@ -165,6 +191,7 @@ class Interp:
         self.prog = prog
         self.rt = rt
         self.inv_no = inv_no
+        OutageSerDes.INV[0] = inv_no
         self.chains: dict[int, list] = {}
 
     def next_chain(self, ctx) -> str:
